@@ -48,6 +48,12 @@ def _struct_layout(fmt):
              'l': (4, True), 'Q': (8, False), 'q': (8, True)}
     fields = []
     for cnt, ch in _re.findall(r'(\d*)([A-Za-z?])', fmt[1:].replace(' ', '')):
+        if ch == 's':
+            fields.append((int(cnt) if cnt else 1, 'bytes'))
+            continue
+        if ch == 'x':
+            fields.append((int(cnt) if cnt else 1, 'pad'))
+            continue
         if ch not in sizes:
             return None
         fields += [sizes[ch]] * (int(cnt) if cnt else 1)
@@ -297,16 +303,47 @@ def _ext_call(ev, dotted, args, kwargs, fr, node):
                 out, off = [], 0
                 for size, signed in fields:
                     piece = T.slice_(args[1], T.const(off), T.const(off + size))
-                    out.append(T.raw_op('INT_SIGNED', piece, T.const(order)) if signed else T.int_(piece, T.const(order)))
+                    if signed == 'bytes':
+                        out.append(piece)
+                    elif signed == 'pad':
+                        pass
+                    else:
+                        out.append(T.raw_op('INT_SIGNED', piece, T.const(order)) if signed else T.int_(piece, T.const(order)))
                     off += size
                 # unpack refuses a buffer of another length
                 fr.facts = fr.facts.add(T.eq(T.len_(args[1]), T.const(off)))
                 return T.tup(out)
-            if dotted == 'struct.pack' and len(args) == 1 + len(fields):
-                parts = []
-                for (size, signed), v in zip(fields, args[1:]):
-                    parts.append(T.raw_op('SER_SIGNED', v, T.const(size), T.const(order)) if signed else T.ser(v, T.const(size), T.const(order)))
+            if dotted == 'struct.pack' and len(args) == 1 + len([f_ for f_ in fields if f_[1] != 'pad']):
+                parts, vals = [], list(args[1:])
+                for size, signed in fields:
+                    if signed == 'pad':
+                        parts.append(T.const(b'\x00' * size))
+                        continue
+                    v = vals.pop(0)
+                    if signed == 'bytes':
+                        if T.length_of(v) != size:
+                            return T.opaque('struct.pack pads or truncates a bytes field whose length is not known to be %d' % size)
+                        parts.append(v)
+                    else:
+                        parts.append(T.raw_op('SER_SIGNED', v, T.const(size), T.const(order)) if signed else T.ser(v, T.const(size), T.const(order)))
                 return T.cat(*parts) if parts else T.const(b'')
+    if dotted == 'struct.Struct' and len(args) == 1 and not kwargs and T.is_const(args[0]) and isinstance(args[0][1], (str, bytes)):
+        fmt = args[0][1] if isinstance(args[0][1], str) else args[0][1].decode()
+        if _struct_layout(fmt) is not None:
+            return T.raw_op('STRUCTOBJ', T.const(fmt))
+    if dotted == 'struct.calcsize' and len(args) == 1 and T.is_const(args[0]) and isinstance(args[0][1], str) and _struct_layout(args[0][1]):
+        return T.const(sum(sz for sz, _ in _struct_layout(args[0][1])[1]))
+    if dotted in ('bisect.bisect', 'bisect.bisect_right', 'bisect.bisect_left') and len(args) == 2 and not kwargs:
+        items = [x for x in (args[0][1] if T.tag(args[0]) in ('tuple', 'list') else ())]
+        if items and all(T.is_const(x) and isinstance(x[1], int) and not isinstance(x[1], bool) for x in items) \
+                and [x[1] for x in items] == sorted(x[1] for x in items) and len(items) <= 64:
+            # insertion point in a sorted constant table: the number of entries <= x (right) / < x (left)
+            x = args[1]
+            out = T.const(len(items))
+            for i in range(len(items) - 1, -1, -1):
+                c = T.lt(x, items[i]) if dotted != 'bisect.bisect_left' else T.not_(T.lt(items[i], x))
+                out = T.phi(c, T.const(i), out)
+            return out
     if dotted == 'itertools.repeat' and len(args) == 1 and not kwargs:
         return T.raw_op('REPEAT', args[0])
     if dotted in ('weakref.ref', 'weakref.proxy', 'weakref.ReferenceType') and len(args) == 1 and not kwargs:
@@ -484,6 +521,9 @@ def _ext_call(ev, dotted, args, kwargs, fr, node):
     if dotted == 'unicodedata.normalize':
         form, s = args[0], args[1]
         return normalize(form, s)
+    if dotted == 'unicodedata.is_normalized' and len(args) == 2 and not kwargs:
+        # by definition: the string equals its normal form
+        return T.eq(normalize(args[0], args[1]), args[1])
     if dotted == 'base64.b64encode':
         return T.raw_op('B64ENC', args[0])
     if dotted in ('collections.namedtuple', 'typing.NamedTuple'):
@@ -633,6 +673,8 @@ def attr_of(ev, base, name, fr):
 def method_call(ev, recv, name, args, kwargs, fr, node):
     if T.tag(recv) == 'raise':
         return recv
+    if T.is_op(recv, 'STRUCTOBJ') and name in ('unpack', 'pack') and not kwargs:
+        return _ext_call(ev, 'struct.' + name, [recv[2]] + list(args), {}, fr, node)
     if any(T.is_op(a, 'ITER') for a in args) and name in ('join', 'extend', 'update', 'fromkeys'):
         args = [ev._consume(a) for a in args]
     if T.is_op(recv, 'ITER'):
